@@ -33,6 +33,8 @@ def gen_cases(tier, seed):
     for k in range(n2):
         nt = int(rng.choice([0, 2]))
         dev = zoo.gen_device(rng, n_terminals=nt, n_holes=int(nt == 0 and k % 2), probes=0, size="small")
+        # films away from z = 0 as well (layer.z0 != 0)
+        dev["layer"]["z0"] = [0.0, 1.5, -0.7][k % 3] * dev["layer"]["xi"]
         lu = ["um", "nm", "mm"][k % 3]
         if lu != "um":
             dev = zoo.scale_device_spec(dev, {"nm": 1e3, "mm": 1e-3}[lu], lu)
